@@ -1,5 +1,6 @@
 import HqModel.Alloc.Run
 import HqModel.Lemmas.AllocInv
+import HqModel.Lemmas.AllocExact
 /-!
 # C04 — worker resources are exclusive and conserved
 
@@ -85,6 +86,22 @@ theorem c04_exclusive {d : Descriptor} {s₀ s : State} (hinit : State.init d = 
   · have := hinv.pools.sum rid full free hp
     omega
 
+/-- **c04_exact.** A successful `tryAllocate rq` (any state, any allowed choices) returns only resource allocations
+that answer an entry of the request exactly: same resource id, `amount` = the requested amount (`all` ⇒ the full size
+of the pool), and
+
+* sum pool: no indices;
+* index pool (list / range), and grouped pool with any policy except `all`: `amount / FPU` whole indices first,
+  followed — iff `amount % FPU ≠ 0` — by exactly one entry holding `amount % FPU` (`Shape`);
+* grouped pool, `all`: only whole indices (that these are *all* indices of the resource is `c16_all`).
+
+The pool kinds and sizes never change (`SameKinds`). -/
+theorem c04_exact {s s' : State} {h : Nat} {rq : Request} {ch : Choices} {al : Allocation}
+    (hstep : tryAllocate s h rq ch = .ok (some al, s')) :
+    (∀ ra ∈ al, ∃ e ∈ rq, ∃ p, s.pools[e.rid]? = some p ∧ ExactFor p.tag p.fullSize e ra) ∧
+      SameKinds s.pools s'.pools :=
+  tryAllocate_exact hstep
+
 /-! Non-vacuity: a concrete descriptor (4 cpus in 2 groups, a list resource, a fractional sum resource) and a
 reachable state with two live allocations, one of them holding a fraction of an index. -/
 
@@ -107,5 +124,11 @@ theorem exS_reach : Reach exS₀ exS := reach_of_runOps Reach.init (Option.some_
 example : State.init exDesc = some exS₀ ∧ Reach exS₀ exS ∧ exS.live.length = 2 ∧
     heldBy (heldOf exS.live 1) 0 1 = 7500 ∧ heldAmount exS.live 2 = 5000 :=
   ⟨exS₀_init, exS_reach, by decide, by decide, by decide⟩
+
+/-- `c04_exact` is not vacuous: the second grant of the example exists and contains a fractional entry -/
+example : ∃ al s', tryAllocate
+    ((runOps exS₀ [.alloc 0 exRq₁ ⟨[], []⟩]).get (by decide)) 1 exRq₂ ⟨[], [(1, 1)]⟩ = .ok (some al, s') ∧
+    al.length = 2 :=
+  ⟨_, _, rfl, by decide⟩
 
 end HqModel.C04
